@@ -519,3 +519,294 @@ Proof.
     + rewrite Hf at 1. rewrite <- Hn, Hw, set_nth_z_mid, <- app_assoc. reflexivity.
     + rewrite zlen_app, zlen_cons, zlen_nil. lia.
 Qed.
+
+Lemma in_window_order m win sv s : In s win -> In s (order m win sv).
+Proof. intros H. unfold order. destruct m; apply in_or_app; auto. Qed.
+
+Lemma in_second_order m win sv s : In s sv -> In s (order m win sv).
+Proof.
+  intros H. unfold order. destruct m; apply in_or_app; auto. right. apply in_rev in H. exact H.
+Qed.
+
+(* offsets identify the items of the address order *)
+Lemma live_unique l x s :
+  WInv l -> In x (live l) -> In s (order (l_mode l) (window l) (second l)) -> s_off s = s_off x -> s = x.
+Proof.
+  intros HI Hx Hs Heq. destruct (WInv_elim _ HI) as (Hf & Hn & HW).
+  apply live_in_order in Hx. destruct Hx as (Hx & _).
+  pose proof (order_pos _ _ _ _ _ _ _ _ _ HW) as Hpo. destruct HW. destruct w_order as (Hc & _).
+  eapply chain_off_inj; eauto.
+Qed.
+
+Lemma drop_last_win_W pre win0 x sv m sf nm ns size g :
+  W pre (win0 ++ [x]) sv m sf nm ns size g -> is_free x = false ->
+  W pre win0 sv m (sf + s_size x) nm ns size g.
+Proof.
+  intros HW Hx.
+  pose proof (W_geo _ _ _ _ _ _ _ _ _ (win0 ++ [mark_free x]) sv HW
+                (geo_mid win0 x (mark_free x) [] (same_geo_mark x)) (geo_refl sv)) as HW1.
+  pose proof (W_shrink _ _ _ _ _ _ _ _ _ pre win0 sv HW1) as HW2.
+  destruct HW. pose proof (count_free_snoc_live win0 x Hx) as Hc.
+  replace (sf + s_size x) with (size - sum_sizes (lives (win0 ++ [mark_free x]) ++ lives sv)).
+  2:{ rewrite w_sum, (lives_snoc_live win0 x Hx). rewrite lives_mid_free by reflexivity.
+      rewrite !sum_sizes_app. cbn [lives filter sum_sizes]. lia. }
+  replace nm with (count_free win0) by lia. rewrite w_ns.
+  apply HW2; try assumption; try reflexivity.
+  - apply sl_app; [apply sl_refl|]. rewrite <- (app_nil_r win0) at 1. apply sl_app; [apply sl_refl|apply sl_nil_l].
+  - rewrite <- (app_nil_r win0) at 1. apply sl_app; [apply sl_refl|apply sl_nil_l].
+  - apply sl_refl.
+  - rewrite lives_mid_free by reflexivity. cbn [lives filter]. rewrite app_nil_r. reflexivity.
+Qed.
+
+Lemma drop_last_sv_W pre win sv0 x m sf nm ns size g :
+  W pre win (sv0 ++ [x]) m sf nm ns size g -> is_free x = false ->
+  W pre win sv0 m (sf + s_size x) nm ns size g.
+Proof.
+  intros HW Hx.
+  pose proof (W_geo _ _ _ _ _ _ _ _ _ win (sv0 ++ [mark_free x]) HW (geo_refl win)
+                (geo_mid sv0 x (mark_free x) [] (same_geo_mark x))) as HW1.
+  pose proof (W_shrink _ _ _ _ _ _ _ _ _ pre win sv0 HW1) as HW2.
+  destruct HW. pose proof (count_free_snoc_live sv0 x Hx) as Hc.
+  replace (sf + s_size x) with (size - sum_sizes (lives win ++ lives (sv0 ++ [mark_free x]))).
+  2:{ rewrite w_sum, (lives_snoc_live sv0 x Hx). rewrite lives_mid_free by reflexivity.
+      rewrite !sum_sizes_app. cbn [lives filter sum_sizes]. lia. }
+  replace ns with (count_free sv0) by lia. rewrite w_nm.
+  apply HW2; try assumption; try reflexivity.
+  - apply sl_refl.
+  - apply sl_refl.
+  - rewrite <- (app_nil_r sv0) at 1. apply sl_app; [apply sl_refl|apply sl_nil_l].
+  - rewrite lives_mid_free by reflexivity. cbn [lives filter]. rewrite app_nil_r. reflexivity.
+Qed.
+
+Lemma free_last_item_spec l x :
+  LInv l -> In x (live l) ->
+  free_last_item l (s_off x) = TSkip \/
+  exists l1, free_last_item l (s_off x) = finish_free l1 /\ marked l x l1.
+Proof.
+  intros HI Hx. pose proof HI as (HWI & HL). destruct (WInv_elim _ HWI) as (Hf & Hn & HW).
+  unfold free_last_item.
+  assert (Hsecond : l_mode l <> MEmpty ->
+    match last_z (second l) with
+    | Some s => if s_off s =? s_off x
+                then finish_free (with_second (with_sum_free l (l_sum_free l + s_size s)) (removelast (second l)))
+                else TSkip
+    | None => TPanic
+    end = TSkip \/
+    exists l1, match last_z (second l) with
+    | Some s => if s_off s =? s_off x
+                then finish_free (with_second (with_sum_free l (l_sum_free l + s_size s)) (removelast (second l)))
+                else TSkip
+    | None => TPanic
+    end = finish_free l1 /\ marked l x l1).
+  { intros Hm. destruct (list_snoc_cases (second l)) as [E|(sv0 & s & Hsv)].
+    { destruct HL. apply l_sv in E. congruence. }
+    rewrite Hsv, last_z_snoc, removelast_snoc.
+    destruct (s_off s =? s_off x) eqn:Heq; [|left; reflexivity]. right.
+    assert (s = x).
+    { eapply live_unique; eauto; [|lia]. apply in_second_order. rewrite Hsv. apply in_or_app. right. left. reflexivity. }
+    subst s. assert (Hxl : is_free x = false) by (destruct HL; eauto).
+    eexists. split; [reflexivity|]. rewrite Hsv in HW.
+    pose proof (drop_last_sv_W _ _ _ _ _ _ _ _ _ _ HW Hxl) as HW1.
+    unfold marked, same_cfg. lsimp. split; [|split; [auto|split; [reflexivity|]]].
+    - apply (WInv_intro _ (prefix l) (window l)); lsimp; auto.
+    - exists (lives (window l) ++ lives sv0), []. unfold live at 1. rewrite Hsv, lives_snoc_live by assumption.
+      split; [rewrite app_assoc; reflexivity|].
+      rewrite (live_of_split _ (prefix l) (window l)); lsimp; auto. rewrite app_nil_r. reflexivity. }
+  destruct (l_mode l) eqn:Hm; [|apply Hsecond; congruence|apply Hsecond; congruence].
+  (* stack: the last item of the first vector *)
+  assert (Hsv : second l = []) by (destruct HW; auto).
+  unfold live in Hx. rewrite Hsv in Hx. cbn [lives filter] in Hx. rewrite app_nil_r in Hx.
+  destruct (list_snoc_cases (window l)) as [E|(win0 & s & Hw)]; [rewrite E in Hx; destruct Hx|].
+  rewrite Hf, Hw, app_assoc, last_z_snoc, removelast_snoc.
+  destruct (s_off s =? s_off x) eqn:Heq; [|left; reflexivity]. right.
+  assert (s = x).
+  { eapply live_unique; eauto; [|lia].
+    - unfold live. rewrite Hsv. cbn [lives filter]. rewrite app_nil_r. exact Hx.
+    - apply in_window_order. rewrite Hw. apply in_or_app. right. left. reflexivity. }
+  subst s. assert (Hxl : is_free x = false) by (destruct HL; eauto).
+  eexists. split; [reflexivity|]. rewrite Hw in HW.
+  pose proof (drop_last_win_W _ _ _ _ _ _ _ _ _ _ HW Hxl) as HW1.
+  unfold marked, same_cfg. lsimp. split; [|split; [auto|split; [reflexivity|]]].
+  - apply (WInv_intro _ (prefix l) win0); lsimp; auto. rewrite Hm. exact HW1.
+  - exists (lives win0), []. unfold live at 1. rewrite Hsv, Hw, lives_snoc_live by assumption.
+    split; [reflexivity|].
+    rewrite (live_of_split _ (prefix l) win0); lsimp; auto. rewrite Hsv. reflexivity.
+Qed.
+
+Lemma mark_mid_win_W pre a x b sv m sf nm ns size g :
+  W pre (a ++ x :: b) sv m sf nm ns size g -> is_free x = false ->
+  W pre (a ++ mark_free x :: b) sv m (sf + s_size x) (nm + 1) ns size g.
+Proof.
+  intros HW Hx.
+  pose proof (W_geo _ _ _ _ _ _ _ _ _ (a ++ mark_free x :: b) sv HW
+                (geo_mid a x (mark_free x) b (same_geo_mark x)) (geo_refl sv)) as HW1.
+  destruct HW.
+  replace (sf + s_size x) with (size - sum_sizes (lives (a ++ mark_free x :: b) ++ lives sv)).
+  2:{ rewrite w_sum, (lives_mid_live a x b Hx). rewrite lives_mid_free by reflexivity.
+      rewrite !sum_sizes_app. cbn [sum_sizes]. lia. }
+  replace (nm + 1) with (count_free (a ++ mark_free x :: b)).
+  2:{ rewrite w_nm, !count_free_mid, Hx, is_free_mark. lia. }
+  rewrite w_ns. exact HW1.
+Qed.
+
+Lemma mark_mid_sv_W pre win a x b m sf nm ns size g :
+  W pre win (a ++ x :: b) m sf nm ns size g -> is_free x = false ->
+  W pre win (a ++ mark_free x :: b) m (sf + s_size x) nm (ns + 1) size g.
+Proof.
+  intros HW Hx.
+  pose proof (W_geo _ _ _ _ _ _ _ _ _ win (a ++ mark_free x :: b) HW (geo_refl win)
+                (geo_mid a x (mark_free x) b (same_geo_mark x))) as HW1.
+  destruct HW.
+  replace (sf + s_size x) with (size - sum_sizes (lives win ++ lives (a ++ mark_free x :: b))).
+  2:{ rewrite w_sum, (lives_mid_live a x b Hx). rewrite lives_mid_free by reflexivity.
+      rewrite !sum_sizes_app. cbn [sum_sizes]. lia. }
+  replace (ns + 1) with (count_free (a ++ mark_free x :: b)).
+  2:{ rewrite w_ns, !count_free_mid, Hx, is_free_mark. lia. }
+  rewrite w_nm. exact HW1.
+Qed.
+
+Lemma window_sorted l : WInv l -> sorted_by s_off (window l).
+Proof.
+  intros HI. destruct (WInv_elim _ HI) as (Hf & Hn & HW). destruct HW.
+  apply item_ok_pos in w_ok1. apply pos_sizes_app in w_ok1. destruct w_ok1 as (_ & Hp).
+  destruct w_first as (Hc & _). apply chain_from_app in Hc. destruct Hc as (_ & Hc).
+  eapply chain_sorted_asc; eauto.
+Qed.
+
+(* the binary search over the live window of the first vector *)
+Lemma find_first_spec l offset :
+  WInv l ->
+  exists k found, sort_find (zlen (first l) - l_null_begin l) (cmp_first l offset) = Some (k, found) /\
+    (found = true -> exists a s b, window l = a ++ s :: b /\ zlen a = k /\ s_off s = offset /\
+                                   nth_z (first l) (k + l_null_begin l) = Some s) /\
+    (found = false -> forall s, In s (window l) -> s_off s <> offset).
+Proof.
+  intros HI. destruct (WInv_elim _ HI) as (Hf & Hn & HW).
+  destruct (sort_find_sorted s_off (prefix l) (window l) offset (cmp_first l offset) (window_sorted _ HI))
+    as (k & found & Hsf & Ht & Hn').
+  { intros i. unfold cmp_first. rewrite Hf at 1. rewrite Hn. reflexivity. }
+  exists k, found. replace (zlen (first l) - l_null_begin l) with (zlen (window l))
+    by (rewrite Hf at 2; rewrite zlen_app; lia).
+  split; [exact Hsf|]. split; [|exact Hn'].
+  intros Hfound. destruct (Ht Hfound) as (a & s & b & Hw & Hk & Hs). exists a, s, b.
+  repeat split; auto. rewrite Hf, Hw, <- Hn, <- Hk, nth_z_app_r by apply zlen_nonneg. apply nth_z_mid.
+Qed.
+
+Lemma free_middle_first_spec l x :
+  LInv l -> In x (live l) ->
+  (free_middle_first l (s_off x) = TSkip /\ ~ In x (window l)) \/
+  exists l1, free_middle_first l (s_off x) = finish_free l1 /\ marked l x l1.
+Proof.
+  intros HI Hx. pose proof HI as (HWI & HL). destruct (WInv_elim _ HWI) as (Hf & Hn & HW).
+  unfold free_middle_first.
+  destruct (find_first_spec l (s_off x) HWI) as (k & found & -> & Ht & Hnf).
+  destruct found.
+  - right. destruct (Ht eq_refl) as (a & s & b & Hw & Hk & Hs & Hnth). rewrite Hnth.
+    assert (s = x).
+    { eapply live_unique; eauto. apply in_window_order. rewrite Hw. apply in_or_app. right. left. reflexivity. }
+    subst s. assert (Hxl : is_free x = false) by (apply live_in_order in Hx; tauto).
+    eexists. split; [reflexivity|]. rewrite Hw in HW.
+    pose proof (mark_mid_win_W _ _ _ _ _ _ _ _ _ _ _ HW Hxl) as HW1.
+    assert (Hf1 : set_nth_z (first l) (k + l_null_begin l) mark_free = prefix l ++ a ++ mark_free x :: b).
+    { rewrite Hf at 1. rewrite Hw, app_assoc. replace (k + l_null_begin l) with (zlen (prefix l ++ a)) by (rewrite zlen_app; lia).
+      rewrite set_nth_z_mid, <- app_assoc. reflexivity. }
+    unfold marked, same_cfg. lsimp. split; [|split; [auto|split; [reflexivity|]]].
+    + apply (WInv_intro _ (prefix l) (a ++ mark_free x :: b)); lsimp; auto.
+    + exists (lives a), (lives b ++ lives (second l)). unfold live at 1. rewrite Hw, lives_mid_live by assumption.
+      split; [rewrite <- app_assoc; reflexivity|].
+      rewrite (live_of_split _ (prefix l) (a ++ mark_free x :: b)); lsimp; auto.
+      rewrite lives_mid_free by reflexivity. rewrite <- app_assoc. reflexivity.
+  - left. split; [reflexivity|]. intros Hin. exact (Hnf eq_refl x Hin eq_refl).
+Qed.
+
+Lemma second_sorted l :
+  WInv l -> l_mode l <> MEmpty ->
+  sorted_by (fun s => match l_mode l with MDouble => - s_off s | _ => s_off s end) (second l).
+Proof.
+  intros HI Hm. destruct (WInv_elim _ HI) as (Hf & Hn & HW).
+  pose proof (order_pos _ _ _ _ _ _ _ _ _ HW) as Hpo. destruct HW. destruct w_order as (Hc & _).
+  apply item_ok_pos in w_ok2.
+  destruct (l_mode l); [congruence| |]; cbn [order] in *; apply chain_from_app in Hc.
+  - destruct Hc as (Hc & _). eapply chain_sorted_asc; eauto.
+  - destruct Hc as (_ & Hc). eapply chain_sorted_desc; eauto.
+Qed.
+
+(* the binary search over the second vector *)
+Lemma find_second_spec l offset :
+  WInv l -> l_mode l <> MEmpty ->
+  exists k found, sort_find (zlen (second l)) (cmp_second l offset) = Some (k, found) /\
+    (found = true -> exists a s b, second l = a ++ s :: b /\ zlen a = k /\ s_off s = offset /\
+                                   nth_z (second l) k = Some s) /\
+    (found = false -> forall s, In s (second l) -> s_off s <> offset).
+Proof.
+  intros HI Hm.
+  destruct (sort_find_sorted _ [] (second l) (match l_mode l with MDouble => - offset | _ => offset end)
+              (cmp_second l offset) (second_sorted _ HI Hm)) as (k & found & Hsf & Ht & Hn').
+  { intros i. unfold cmp_second. cbn [app]. rewrite zlen_nil, Z.add_0_r.
+    destruct (nth_z (second l) i); [|reflexivity]. destruct (l_mode l); f_equal; lia. }
+  exists k, found. split; [exact Hsf|]. split.
+  - intros Hfound. destruct (Ht Hfound) as (a & s & b & Hsv & Hk & Hs). exists a, s, b.
+    repeat split; auto.
+    + destruct (l_mode l); lia.
+    + rewrite Hsv, <- Hk. apply nth_z_mid.
+  - intros Hfound s Hin Heq. apply (Hn' Hfound s Hin). destruct (l_mode l); lia.
+Qed.
+
+Lemma free_middle_second_spec l x :
+  LInv l -> In x (live l) ->
+  (free_middle_second l (s_off x) = TSkip /\ ~ In x (second l)) \/
+  exists l1, free_middle_second l (s_off x) = finish_free l1 /\ marked l x l1.
+Proof.
+  intros HI Hx. pose proof HI as (HWI & HL). destruct (WInv_elim _ HWI) as (Hf & Hn & HW).
+  unfold free_middle_second. destruct (mode_eqb (l_mode l) MEmpty) eqn:Hme.
+  { left. split; [reflexivity|]. assert (l_mode l = MEmpty) by (destruct (l_mode l); try discriminate; reflexivity).
+    destruct HW. rewrite w_mode by assumption. auto. }
+  assert (Hm : l_mode l <> MEmpty) by (intros E; rewrite E in Hme; discriminate).
+  destruct (find_second_spec l (s_off x) HWI Hm) as (k & found & -> & Ht & Hnf).
+  destruct found.
+  - right. destruct (Ht eq_refl) as (a & s & b & Hsv & Hk & Hs & Hnth). rewrite Hnth.
+    assert (s = x).
+    { eapply live_unique; eauto. apply in_second_order. rewrite Hsv. apply in_or_app. right. left. reflexivity. }
+    subst s. assert (Hxl : is_free x = false) by (apply live_in_order in Hx; tauto).
+    eexists. split; [reflexivity|]. rewrite Hsv in HW.
+    pose proof (mark_mid_sv_W _ _ _ _ _ _ _ _ _ _ _ HW Hxl) as HW1.
+    assert (Hs1 : set_nth_z (second l) k mark_free = a ++ mark_free x :: b).
+    { rewrite Hsv, <- Hk. apply set_nth_z_mid. }
+    unfold marked, same_cfg. lsimp. split; [|split; [auto|split; [reflexivity|]]].
+    + apply (WInv_intro _ (prefix l) (window l)); lsimp; auto. rewrite Hs1. exact HW1.
+    + exists (lives (window l) ++ lives a), (lives b). unfold live at 1. rewrite Hsv, lives_mid_live by assumption.
+      split; [rewrite <- app_assoc; reflexivity|].
+      rewrite (live_of_split _ (prefix l) (window l)); lsimp; auto.
+      rewrite Hs1, lives_mid_free by reflexivity. rewrite <- app_assoc. reflexivity.
+  - left. split; [reflexivity|]. intros Hin. exact (Hnf eq_refl x Hin eq_refl).
+Qed.
+
+(* ------------------------------------------------------------------ Free of a live item (C06) *)
+
+Theorem free_live_spec l x :
+  LInv l -> In x (live l) ->
+  exists l', lin_free l (s_off x + 1) = FOk l' /\ LInv l' /\ same_cfg l l' /\
+             l_sum_free l' = l_sum_free l + s_size x /\
+             exists a b, live l = a ++ x :: b /\ live l' = a ++ b.
+Proof.
+  intros HI Hx. unfold lin_free. replace (s_off x + 1 - 1) with (s_off x) by lia.
+  assert (Hfin : forall t, (exists l1, t = finish_free l1 /\ marked l x l1) ->
+            exists l', t = TDone l' /\ LInv l' /\ same_cfg l l' /\ l_sum_free l' = l_sum_free l + s_size x /\
+                       exists a b, live l = a ++ x :: b /\ live l' = a ++ b).
+  { intros t (l1 & -> & HW1 & Hcfg1 & Hsf1 & a & b & Hl & Hl1).
+    destruct (cleanup_spec _ HW1) as (l' & Hcl & HI' & Hlive' & Hcfg' & Hsf').
+    exists l'. unfold finish_free. rewrite Hcl. split; [reflexivity|]. split; [exact HI'|].
+    split; [eapply same_cfg_trans; eauto|]. split; [congruence|]. exists a, b. split; [exact Hl|congruence]. }
+  assert (Hdone : forall t, (exists l', t = TDone l' /\ LInv l' /\ same_cfg l l' /\ l_sum_free l' = l_sum_free l + s_size x /\
+                       exists a b, live l = a ++ x :: b /\ live l' = a ++ b) ->
+            forall rest, exists l', match or_try t rest with TDone l' => FOk l' | TSkip => FError | TPanic => FPanic end = FOk l' /\
+                       LInv l' /\ same_cfg l l' /\ l_sum_free l' = l_sum_free l + s_size x /\
+                       exists a b, live l = a ++ x :: b /\ live l' = a ++ b).
+  { intros t (l' & -> & H) rest. exists l'. split; [reflexivity|exact H]. }
+  destruct (free_first_item_spec l x HI Hx) as [->|H1]; [|apply Hdone, Hfin, H1]. cbn [or_try].
+  destruct (free_last_item_spec l x HI Hx) as [->|H2]; [|apply Hdone, Hfin, H2]. cbn [or_try].
+  destruct (free_middle_first_spec l x HI Hx) as [(-> & Hnw)|H3]; [|apply Hdone, Hfin, H3]. cbn [or_try].
+  destruct (free_middle_second_spec l x HI Hx) as [(-> & Hns)|H4].
+  - exfalso. unfold live in Hx. apply in_app_or in Hx. destruct Hx as [Hx|Hx]; apply lives_is_live in Hx; tauto.
+  - apply Hfin in H4. destruct H4 as (l' & -> & H). exists l'. split; [reflexivity|exact H].
+Qed.
